@@ -115,7 +115,8 @@ def run(tools, seed, tier):
                 flags = (["-stub"] if c["stub"] else []) + (["-skip-ensure"] if c["skip"] else []) + \
                         (["-with-resets"] if c["resets"] else [])
                 res = {}
-                for pos, name in (("last", "zz_moq_verif.go"), ("first", "a_moq_verif.go")):
+                for pos, name in (("last", "zz_moq_verif.go"), ("first", "00_moq_verif.go"),
+                                  ("mid", l2.mid_position(o)[0])):
                     outp = os.path.join(dst, name)
                     runs = []
                     for k in range(2):
